@@ -837,6 +837,8 @@ class MemoryPathIO(AbstractPathIO):
             snode = self.get_node(source)
             if None in (snode, dparent):
                 raise FileNotFoundError
+            if dparent.type != "dir":
+                raise NotADirectoryError
             if source in destination.parents:
                 raise OSError("Can not move directory into itself")
             for i, node in enumerate(sparent.content):
